@@ -129,7 +129,7 @@ fn gen_raw(t: &mut Tape, max_units: usize) -> String {
     s
 }
 
-fn gen_token(t: &mut Tape) -> Tok {
+pub fn gen_token(t: &mut Tape) -> Tok {
     match t.below(14) {
         0 | 1 => {
             let (k, d) = *t.pick(&KEYWORDS);
